@@ -1,21 +1,32 @@
 (* C04 — Compile accepts exactly the sentences of the JMESPath grammar.
    Statements only.
-   Proved here: (soundness of shape) whatever Compile accepts is the AST of an
-   expression tree of the grammar's tree language — there is no accepted input
-   whose AST is malformed and fails only when searched; every input is either
-   accepted or rejected at compile time (Compile always returns).
-   (completeness) every grammatical sentence is accepted: the parser, on any
-   token list that spells a well-precedenced tree of the grammar, returns the AST
-   of that tree (C04_grammatical_is_accepted, Proofs/ParserComplete.v).
-   Not a theorem: that an accepted token list is always the spelling of the
-   tree it yields (no ungrammatical sentence slips through with a well-formed
-   AST); this is covered by the run: exhaustive token strings up to a length
-   bound, mutated valid expressions, the fuzz corpus and a list of expectations
-   written from the grammar, compared between library, model and specification. *)
+   The grammar is given by its trees (Spec/Grammar.v): expr, their token spelling
+   render, and wp/npos — operands placed as the precedence rules require, lists
+   non-empty, integers in range, "&" only as an argument, what may follow a dot
+   or open a projection's right-hand side.  A sentence is the spelling of such a
+   tree; a token counts by what the parser reads from it (a number by its
+   integer, a literal by the JSON value of its text, a name or raw string by its
+   bytes, anything else by its type: veq/Spell).
+   Proved here, for every token list that ends in its only EOF (which is what
+   the lexer produces, C05):
+     C04_exactly_the_sentences  Parse accepts ts  <->  ts spells a well-precedenced tree,
+                                and the AST returned is that tree's (both directions,
+                                Proofs/ParserComplete.v and Proofs/ParserSound.v);
+   and for every byte string: Compile returns (accept or reject, at compile
+   time); whatever it accepts is the AST of a tree and searching it is evaluating
+   that tree.
+   From bytes to tokens: C14 (each token kind, whole token lists); every
+   well-precedenced tree has a text that Compile accepts
+   (C04_grammatical_text_is_accepted).  Not a theorem: that the lexer, on arbitrary
+   bytes, produces only tokens that some text of the grammar produces (it is total
+   and its errors are located: C05, C17); covered by the run — exhaustive token
+   strings to a length bound, mutated valid expressions, the fuzz corpus, grammar
+   expectations, and Run/Exact.v (a test: accepted = spellings, enumerated to
+   length 5 over 23 token kinds). *)
 From Coq Require Import Floats Permutation.
 From JM Require Import Model.Base Model.Num Model.Value Model.JsonText Model.Lexer Model.Parser Model.Interp Model.Api
      Spec.Grammar Spec.Semantics Proofs.ValueFacts Proofs.InterpRefine Proofs.CompileTotal Proofs.ParserShape
-     Proofs.SearchTotal Proofs.ApiFacts Proofs.ParserTotal Proofs.ParserComplete Proofs.LexText Inst.FloatNum Run.Checker.
+     Proofs.SearchTotal Proofs.ApiFacts Proofs.ParserTotal Proofs.ParserComplete Proofs.LexText Proofs.ParserSound Inst.FloatNum Run.Checker.
 
 Section C04.
 Context {NumO : NumOps}.
@@ -52,14 +63,29 @@ Hypothesis lit_ok : forall v, is_json v = true -> json_unmarshal (lit_text v) = 
 
 Theorem C04_grammatical_is_accepted :
   forall (x : expr) (ts : list token),
-    wp x = true -> wf_tokens ts ->
+    wp x = true -> npos x = true -> wf_tokens ts ->
     Spell ts 0 (render lit_text x ++ [tk tEOF []]) ->
     parse_tokens ts = Ok (compile x).
 Proof. exact (parse_tokens_complete lit_text lit_ok). Qed.
 
+(* conversely, whatever token list is accepted spells, token by token, a
+   well-precedenced tree, and the AST is that tree's: nothing ungrammatical is
+   accepted *)
+Theorem C04_accepted_is_a_sentence :
+  forall (ts : list token) n, parse_tokens ts = Ok n ->
+    exists x, n = compile x /\ wp x = true /\ npos x = true /\ Spell ts 0 (render lit_text x ++ [tk tEOF []]).
+Proof. exact (parse_tokens_sound_spell lit_text lit_ok). Qed.
+
+(* accepted = grammatical *)
+Theorem C04_exactly_the_sentences :
+  forall ts : list token, wf_tokens ts ->
+  forall n, parse_tokens ts = Ok n <->
+            exists x, n = compile x /\ wp x = true /\ npos x = true /\ Spell ts 0 (render lit_text x ++ [tk tEOF []]).
+Proof. exact (parse_tokens_exact_spell lit_text lit_ok). Qed.
+
 (* ... and from bytes: the spaced text of every such tree is accepted by Compile *)
 Theorem C04_grammatical_text_is_accepted :
-  forall x : expr, wp x = true -> texty lit_text x = true ->
+  forall x : expr, wp x = true -> npos x = true -> texty lit_text x = true ->
     Api.compile (expr_text lit_text x) = Ok (compile x).
 Proof. exact (compile_expr_text lit_text lit_ok). Qed.
 
@@ -67,6 +93,8 @@ End C04.
 
 Print Assumptions C04_accept_or_reject.
 Print Assumptions C04_grammatical_is_accepted.
+Print Assumptions C04_accepted_is_a_sentence.
+Print Assumptions C04_exactly_the_sentences.
 Print Assumptions C04_grammatical_text_is_accepted.
 Print Assumptions C04_accepted_is_a_tree.
 Print Assumptions C04_accepted_evaluates_as_its_tree.
